@@ -10,9 +10,14 @@
 //!   impl-out   : `<id> <response>`         (diffed byte-wise with the model's output)
 //!   oracle-out : `<id> ok` | `<id> FAIL <what>` | `<id> skip <why>`
 //!   meta-out   : `<id> key=value …`        (branch / distribution statistics)
+#![allow(dead_code)]
 mod q;
 mod wire;
+mod sc;
 mod c13;
+mod c03;
+mod c01;
+mod c15;
 
 use std::io::Write;
 use wire::{Rng, Toks};
@@ -37,10 +42,10 @@ type GenFn = fn(&mut Rng, Tier, &mut Vec<String>);
 type ExecFn = fn(&str, &mut Toks, &mut Ctx) -> Option<String>;
 
 fn gens() -> Vec<(&'static str, GenFn)> {
-    vec![("C13", c13::gen as GenFn)]
+    vec![("C13", c13::gen as GenFn), ("C03", c03::gen as GenFn), ("C01", c01::gen as GenFn), ("C02", c01::gen_c02 as GenFn), ("C15", c15::gen as GenFn)]
 }
 fn execs() -> Vec<ExecFn> {
-    vec![c13::exec as ExecFn]
+    vec![c13::exec as ExecFn, c03::exec as ExecFn, c01::exec as ExecFn, c15::exec as ExecFn]
 }
 
 fn main() {
